@@ -169,7 +169,7 @@ def _expected(names, js, n, b):
         return [_exc(e)], {"stops": 0, "blocks": 0, "final_from": None}
 
 
-def judge_run(res, names, js, n, b, cb, exp=None, record=True):
+def judge_run(res, names, js, n, b, cb, exp=None, record=True, rerun=True):
     """Execute one Split.run case and judge it. Returns the observed output (or None)."""
     case = {"law": "run", "branches": list(names), "js": list(js), "n": n, "bufsize": b,
             "copy_buf": cb}
@@ -198,6 +198,25 @@ def judge_run(res, names, js, n, b, cb, exp=None, record=True):
     if got not in outs:
         res.violation(case, got, outs[0] if len(outs) == 1 else {"any_of": outs},
                       _schedule_cause(names, n, got, outs[0], info))
+    elif isinstance(got, list) and rerun:
+        # a second run of the same Split object over an equal flow: one more run of the documented
+        # schedule over the same (now used) branch objects, every branch active again
+        try:
+            got2 = list(s.run(iter(_flow(n))))
+        except Exception as e:  # noqa
+            got2 = _exc(e)
+        pairs = M.expected_two_runs(names, js, lambda: _flow(n), b, _exc)
+        if record:
+            res.count("second_runs_checked")
+        if (got, got2) not in pairs and not any(p[0] == got and len(p) == 1 for p in pairs):
+            seconds = [p[1] for p in pairs if len(p) == 2 and p[0] == got]
+            exp2 = seconds[0] if seconds else "?"
+            cause = _schedule_cause(names, n, got2, exp2, {"stops": info["stops"], "final_from": None}) \
+                if isinstance(exp2, list) else {"law": "run-schedule", "observed": "?"}
+            cause["law"] = "second-run-schedule"
+            res.violation(dict(case, law="rerun"), {"first": got, "second": got2},
+                          {"second": exp2 if len(seconds) <= 1 else {"any_of": seconds}}, cause,
+                          note="second run of the same Split object over an equal flow")
     return got
 
 
@@ -667,7 +686,7 @@ def run_shard(p, tier):
 def replay(case):
     res = Result()
     law = case.get("law")
-    if law == "run":
+    if law in ("run", "rerun"):
         judge_run(res, case["branches"], case["js"], case["n"], case["bufsize"], case["copy_buf"])
     elif law == "bufsize-independence":
         names, js, n, cb = case["branches"], case["js"], case["n"], case["copy_buf"]
